@@ -25,6 +25,9 @@ pub struct Step {
     /// days that pass before this step (installed sets must not decay with time)
     #[serde(default)]
     pub days_before: u8,
+    /// the candidate is a set that is already installed (the attempt must fail and must not age anybody)
+    #[serde(default)]
+    pub repeat_installed: Option<u16>,
 }
 
 #[derive(Clone, Debug, Serialize, Deserialize)]
@@ -35,8 +38,8 @@ pub struct Case {
 }
 
 fn step() -> impl Strategy<Value = Step> {
-    (prop_oneof![3 => Just(0u16), 2 => any::<u16>()], any::<bool>(), prop_oneof![4 => Just(true), 1 => Just(false)], setgen(3), prop_oneof![4 => Just(0u8), 1 => 1u8..25])
-        .prop_map(|(prover, bypass, operator_auth, cand, days_before)| Step { prover, bypass, operator_auth, cand, days_before })
+    (prop_oneof![3 => Just(0u16), 2 => any::<u16>()], any::<bool>(), prop_oneof![4 => Just(true), 1 => Just(false)], setgen(3), prop_oneof![4 => Just(0u8), 1 => 1u8..100], prop_oneof![5 => Just(None), 1 => any::<u16>().prop_map(Some)])
+        .prop_map(|(prover, bypass, operator_auth, cand, days_before, repeat_installed)| Step { prover, bypass, operator_auth, cand, days_before, repeat_installed })
 }
 
 impl Property for C08 {
@@ -45,7 +48,7 @@ impl Property for C08 {
         "C08"
     }
     fn rule(&self) -> &'static str {
-        "proptest: retention in {0,1,2,3,5,100,2^63,u64::MAX-3,u64::MAX-1,u64::MAX}, 1-4 initial sets, history of <=9 (quick) / <=14 (thorough) rotation attempts (proving set = any installed set, bypass flag, operator authorisation), optionally with up to 24 days passing before a step. After construction and after every step EVERY installed set is probed on both paths: validate_proof over a fresh data hash and approve_messages of a unique message (sets outside the window additionally with a batch of already approved messages). Oracle: honoured iff current_epoch - epoch(set) <= retention (validate_proof's flag true exactly for the newest set); a rotation attempt succeeds iff the proving set is the newest (no bypass) or within the window (bypass with operator authorisation). non-trivial = some probe lies exactly on the boundary (current - epoch in {retention, retention+1}); distinct by Debug hash"
+        "proptest: retention in {0,1,2,3,5,100,2^63,u64::MAX-3,u64::MAX-1,u64::MAX}, 1-4 initial sets, history of <=9 (quick) / <=14 (thorough) rotation attempts (proving set = any installed set, bypass flag, operator authorisation), optionally with up to 99 days passing before a step (<= 300 in total), and with candidates that are already installed (must fail and must not age any set). After construction and after every step EVERY installed set is probed on both paths: validate_proof over a fresh data hash and approve_messages of a unique message (sets outside the window additionally with a batch of already approved messages). Oracle: honoured iff current_epoch - epoch(set) <= retention (validate_proof's flag true exactly for the newest set); a rotation attempt succeeds iff the proving set is the newest (no bypass) or within the window (bypass with operator authorisation). non-trivial = some probe lies exactly on the boundary (current - epoch in {retention, retention+1}); distinct by Debug hash"
     }
     fn cases(&self, tier: Tier) -> u64 {
         tier.pick(3000, 40000)
@@ -68,6 +71,7 @@ impl Property for C08 {
         }
         let dest = Address::generate(&env);
         let mut probe_no: u64 = 0;
+        let mut days_passed: u32 = 0;
         let mut last_approved: Option<Message> = None;
         let boundary = std::cell::Cell::new(false);
 
@@ -133,15 +137,23 @@ impl Property for C08 {
 
         probe_all(&installed, &model, "after construction", cx)?;
         for (k, st) in case.steps.iter().enumerate() {
-            if st.days_before > 0 {
+            if st.days_before > 0 && days_passed + st.days_before as u32 <= 300 {
+                days_passed += st.days_before as u32;
                 advance_ledgers(&env, st.days_before as u32 * 17280);
                 cx.label("days_pass_between_steps");
             }
             let prover = installed[installed.len() - 1 - pick(st.prover, installed.len())].clone();
             let ph = prover.hash();
-            let cand = st.cand.build((case.initial.len() + k) as u8);
+            let repeat = st.repeat_installed.map(|i| installed[pick(i, installed.len())].clone());
+            let cand = match &repeat {
+                Some(r) => {
+                    cx.label("candidate_already_installed");
+                    r.clone()
+                }
+                None => st.cand.build((case.initial.len() + k) as u8),
+            };
             let page = model.epoch - model.by_hash[&ph];
-            let expect_ok = if st.bypass { st.operator_auth && page <= retention } else { page == 0 };
+            let expect_ok = repeat.is_none() && if st.bypass { st.operator_auth && page <= retention } else { page == 0 };
             if st.bypass && st.operator_auth && (page == retention || Some(page) == retention.checked_add(1)) {
                 boundary.set(true);
                 cx.label("bypass_rotation_at_window_boundary");
